@@ -129,6 +129,8 @@ class Ops:
             return bool(v)
         if isinstance(v, EnumVal):
             return bool(v.value) if v.cls.is_intenum else True
+        if type(v).__name__ == "SStr":
+            return len(v.parts) > 0        # tokens are non-empty
         if isinstance(v, (ListV, SetV)):
             return len(v.items) > 0
         if isinstance(v, DictV):
@@ -186,6 +188,17 @@ class Ops:
     # ---------------------------------------------------------------- equality
     def eq(self, a, b):
         """python == -> bool | z3 Bool"""
+        if type(a).__name__ == "SStr" or type(b).__name__ == "SStr":
+            from . import textmodel
+            x, y = (a, b) if type(a).__name__ == "SStr" else (b, a)
+            if isinstance(y, str) or type(y).__name__ == "SStr":
+                return textmodel.same_text(self, x, y)
+            if isinstance(y, SV) and y.ty == "str":
+                u = textmodel.unwrap(x)
+                if isinstance(u, SV):
+                    return u.z == y.z
+                return False
+            return False
         if (isinstance(a, float) and a != a) or (isinstance(b, float) and b != b):
             return False
         if a is b and not isinstance(a, float):
@@ -322,6 +335,10 @@ class Ops:
             b = b.value
         if _is_conc_scalar(a) and _is_conc_scalar(b):
             return self._conc_binop(op, a, b)
+        if isinstance(op, (ast.BitAnd, ast.BitOr, ast.BitXor)) and pyclass_kind(a) == "bool" and pyclass_kind(b) == "bool":
+            za, zb = to_z3(a), to_z3(b)
+            f = {ast.BitAnd: z3.And, ast.BitOr: z3.Or, ast.BitXor: z3.Xor}[type(op)]
+            return SV(f(za, zb), "bool")
         ka, kb = num_kind(a), num_kind(b)
         if ka and kb:
             return self._num_binop(op, a, b, ka, kb)
